@@ -33,7 +33,7 @@ EXPLANATION = ("E1 CrossHair lemmas on the real evaluators/helpers with symbolic
                "and a solver-enumerated catalogue of awkward JSON values through the whole data path of the real conductor")
 
 VALUES = [0, -1, 2 ** 31, 2 ** 63 - 1, 2 ** 63, 2 ** 64, 2 ** 64 + 1, -2 ** 63 - 1, 10 ** 30, 1.5, 1e308, 5e-324, -0.0, 1e16, 0.1 + 0.2, True, False, None,
-          "", "abc", "123", "1.0", "true", "null", "None", "%s %d", "{0}", "{}", "[1, 2]", '{"a": 1}', "a\nb", "é中", "\U0001F600", "it's", 'say "hi"', " lead", "x=1",
+          "", "abc", "123", "1.0", "true", "null", "None", "%s %d", "{0}", "{}", "[1, 2]", '{"a": 1}', "a\nb", "é中", "\U0001F600", "it's", 'say "hi"', " lead", "x=1", "a\n", "\n", "two\n\n", "x\r\ny", "cr\r", "{# note #}", "a {# b #} c", "tab\there", "  ", "{ {", "% >", "100%",
           [], {}, [1, [2, [3]]], {"k": {"n": [1, "2", None]}}, [True, None, 1.5, "s"], {"1": 1}, [{"a": []}, {}]]
 # (current value, re-published value): equal under ==, different JSON values
 EQ_PAIRS = [(1, True), (0, False), (True, 1), (1, 1.0), (0.0, 0), ([1, 0], [True, False]), ({"a": 1}, {"a": True}), (2 ** 53, float(2 ** 53)), ("1", 1), (None, 0)]
